@@ -38,7 +38,7 @@ func isAdjacency(c *Check, v ssa.Value, depth int) bool {
 		return isLoadOfField(x.X, fInEdges) || isLoadOfField(x.X, fOutEdges) || isAdjacency(c, x.X, depth+1)
 	case *ssa.Call:
 		for _, f := range c.G.Callees[x] {
-			if engine.InPackage(f, "dag") && (readsField(c, f, fInEdges) || readsField(c, f, fOutEdges)) && returnsNodeSlice(f) {
+			if engine.InPackage(f, "dag") && returnsNodeSlice(f) && (readsFieldDeep(c, f, fInEdges) || readsFieldDeep(c, f, fOutEdges)) {
 				return true
 			}
 		}
@@ -259,6 +259,7 @@ func ruleTraversals(c *Check, rule string, onlyDupFree bool) {
 	tabled := map[string]string{
 		"cmd/cmds.buildTree": "renders the dependency *tree* for `grog graph -o tree`: one line per path is the output format, not a graph algorithm named by the property",
 		"cmd/cmds.printTree": "tree rendering for `grog graph`, see buildTree",
+		"(*execution.Executor).LoadDependencyOutputs": "descends only into a dependency whose outputs failed to load; the re-run that follows sets the per-target OutputsLoaded mark, so a later visit returns from LoadOutputs before descending; not one of the operations the property names (minimal-mode fault path, see C15)",
 	}
 	seenFn := map[string]bool{}
 	for _, t := range findTraversals(c) {
